@@ -183,11 +183,22 @@ def run(ctx) -> Report:
     rcls = prog.get_class("ufl.algorithms.remove_component_tensors.IndexReplacer")
     tab = ctx.disp.mf_table(rcls)
     binders = [b for b in ("IndexSum", "ComponentTensor") if tab.get(b) is not None and tab[b].func.name != "reuse_if_untouched"]
-    sub = prog.lookup(prog.get_class(f"{MOD}.IndexSumSimplifier"), "_substitute")
-    if len(binders) == 2:
-        rep.ok("C09-scope", sub, "IndexReplacer has binder-aware rules")
-    else:
-        rep.violation("C09-scope", sub, "IndexSumSimplifier._substitute -> IndexReplacer through binders", "IndexSumSimplifier._substitute replaces the summation index with IndexReplacer, which substitutes below IndexSum/ComponentTensor binders without stopping or renaming: a factor that binds the replacement index captures it")
+    # the places of this module that substitute with an IndexReplacer: call sites that resolve to the class, whatever the
+    # enclosing method is called
+    mod = prog.module(MOD)
+    users = []
+    for c in mod.classes.values():
+        for fi in c.all_defs:
+            for n in ast.walk(fi.node):
+                if isinstance(n, ast.Call) and prog.resolve_expr(mod, n.func) is rcls:
+                    users.append((c, fi, n))
+    if not users:
+        raise AnalysisError("C09-scope: no construction of IndexReplacer found in cancel_jacobian_products (confirmed: 1, in IndexSumSimplifier)")
+    for c, fi, n in users:
+        if len(binders) == 2:
+            rep.ok("C09-scope", (fi, n), "IndexReplacer has binder-aware rules")
+        else:
+            rep.violation("C09-scope", (fi, n), f"{c.name} -> IndexReplacer through binders", f"{fi.qualname} replaces the summation index with IndexReplacer, which substitutes below IndexSum/ComponentTensor binders without stopping or renaming: a factor that binds the replacement index captures it", scope=c.name)
     rep.require_min("C09-delta", 40)
     rep.require_min("C09-ident", 40)
     rep.require_min("C09-pow", 40)
